@@ -11,6 +11,7 @@ package xstar
 //@   lock Mutex level 20
 //@   guarded_by Mutex: closed pipes recvQLen sendQLen recvExpire recvq ttl
 //@   immutable: closeq
+//@   elem_invariant recvq: !shared(elem)
 //@
 //@ func (*socket).RemovePipe
 //@   assumes cast("*pipe", pp.GetPrivate()).s == s
